@@ -38,6 +38,7 @@ Part(hi, pi) ==
       Valid(c[1]) /\ (c[2] \/ Dist(c[1]) <= 2 \/ IsRecorded(c[1])) }
 ExportCases ==
     /\ TLCGet("stats").generated >= 0
+    /\ ndJsonSerialize(IOEnv.CASES_OUT \o ".errvals", SetToSeq(UNION { { Case(r, m) : m \in M4For(r) } : r \in ErrorSpace }))
     /\ ndJsonSerialize(IOEnv.CASES_OUT \o ".statelen", SetToSeq(UNION { { Case(r, m) : m \in M4For(r) } : r \in StateLenSpace }))
     /\ \A hi \in DOMAIN HeadSeq : \A pi \in DOMAIN PubSeq :
           ndJsonSerialize(IOEnv.CASES_OUT \o "." \o ToString(hi) \o "-" \o ToString(pi),
